@@ -130,10 +130,10 @@ def rand_cfg(rng, tabs=False, wide_before=False, odd_prefix=None):
     return mkcfg(wrap, margin, offs, pf, tabstop, before, allow=int(rng.random() < 0.15))
 
 
-def rand_states(rng, cfg, alpha, n):
+def rand_states(rng, cfg, alpha, n, extra_max=None):
     """A history through one window: typing at the end, cursor motion, jumps,
     edits, new documents, resizes."""
-    extra = margin_extra(cfg)
+    extra = margin_extra(cfg) if extra_max is None else extra_max
     t = rand_text(rng, alpha) if rng.random() < 0.7 else ""
     cur = rng.randint(0, len(t))
     big = rng.random() < 0.08
@@ -233,6 +233,67 @@ def gen_random(chk, dist):
     return cases
 
 
+def gen_switching(chk, dist):
+    """Histories that CHANGE the window configuration between renders of ONE Window object:
+    wrap mode on/off (vertical_scroll_2 / horizontal_scroll left by the other mode carry over),
+    scroll offsets, margins (body width changes), line prefixes, allow_scroll_beyond_bottom,
+    processors.  (a) random histories where every state may bring a new configuration;
+    (b) pairs of the small configurations on the structured small documents: scroll with A, render with B."""
+    rng = chk.rng
+    thorough = chk.tier == "thorough"
+    cases = []
+
+    def mutate(cfg, dom):
+        r = rng.random()
+        new = [cfg[0], cfg[1], list(cfg[2]), list(cfg[3]), cfg[4], list(cfg[5]), cfg[6]]
+        if r < 0.3:
+            new[0] = 1 - cfg[0]                                   # wrap mode only
+        elif r < 0.42:
+            new[2] = [rng.choice([0, 0, 1, 2, 3, 7]) for _ in range(4)]
+        elif r < 0.54:
+            new[1] = rng.choice([m for m in (0, 1, 2, 3) if m != cfg[1]])
+        elif r < 0.66:
+            pf = rng.choice([None, (">", ".", 0), ("> ", ". ", 0), ("", ">> ", 0), (">", ". ", 1), (">> ", "", 1)])
+            new[3] = [0, [], [], 0] if pf is None else [1, S(pf[0]), S(pf[1]), int(pf[2])]
+        elif r < 0.72:
+            new[6] = 1 - cfg[6]
+        elif r < 0.8:
+            new[5] = [0, []] if cfg[5][0] else [1, S(rng.choice(["$ ", "in: "]))]
+        else:
+            c2 = rand_cfg(rng, tabs=bool(cfg[4]))
+            new = c2
+        return new
+
+    for dom, n in [("narrow_printable", 1500 if thorough else 420), ("tabs", 400 if thorough else 80),
+                   ("wide", 400 if thorough else 60), ("control", 400 if thorough else 60)]:
+        for _ in range(n):
+            alpha = rng.choice(ALPHABETS[dom])
+            cfg = rand_cfg(rng, tabs=(dom == "tabs"))
+            states = rand_states(rng, cfg, alpha, rng.randint(2, 10), extra_max=5)
+            cur = cfg
+            for st in states[1:]:
+                if rng.random() < 0.4:
+                    cur = mutate(cur, dom)
+                    st.append(cur)
+            cases.append(mkcase(cfg, states))
+            dist["switching_random_" + dom] += 1
+    docs = docs_small()
+    cfgs = cfgs_small()
+    for _ in range(12000 if thorough else 1200):
+        a, b = rng.choice(cfgs), rng.choice(cfgs)
+        d = rng.choice(docs)
+        W, H = rng.randint(1, 12) + 5, rng.randint(1, 6)
+        c1, c2 = rng.randint(0, len(d)), rng.randint(0, len(d))
+        if rng.random() < 0.5:
+            c1 = len(d)
+        states = [[W, H, 0, 0, S(d), c1], [W, H, 0, 0, S(d), c2, b]]
+        if rng.random() < 0.3:
+            states.append([W, H, 0, 0, S(d), rng.randint(0, len(d)), a])
+        cases.append(mkcase(a, states))
+        dist["switching_pairs_small"] += 1
+    return cases
+
+
 WITNESSES = [
     # C11-F1 (fixed by /repo commit f4b07a8)  Window 5x1, 'abcde', cursor at the end
     mkcase(mkcfg(1), [[5, 1, 0, 0, S("abcde"), 5]]),
@@ -244,12 +305,24 @@ WITNESSES = [
     mkcase(mkcfg(0), [[5, 2, 0, 0, S("\x01\x01\x01\x01"), 4]]),
     # C11-F2  cursor on a combining mark that follows a full row
     mkcase(mkcfg(1), [[3, 2, 0, 0, S("abc\u0301"), 3]]),
+    # configuration switches through ONE window (round 6): intra-line scroll left by a wrapped render of an
+    # over-tall line, then the wrap filter goes off (seeded C11-13); horizontal scroll left by a non-wrapped
+    # render, then the wrap filter goes on; margins / prefixes / offsets appearing mid-history
+    mkcase(mkcfg(1), [[10, 2, 0, 0, S("one\ntwo\n" + "abcdefghijklmnopqrstuvwxyz" * 2 + "\nfour\nfive"), 40],
+                      [10, 2, 0, 0, S("one\ntwo\n" + "abcdefghijklmnopqrstuvwxyz" * 2 + "\nfour\nfive"), 33, mkcfg(0)],
+                      [10, 2, 0, 0, S("one\ntwo\n" + "abcdefghijklmnopqrstuvwxyz" * 2 + "\nfour\nfive"), 3, mkcfg(1)]]),
+    mkcase(mkcfg(0), [[8, 3, 1, 1, S("ab\n" + "abcdefghijklmnopqrstuvwxyz"), 29],
+                      [8, 3, 1, 1, S("ab\n" + "abcdefghijklmnopqrstuvwxyz"), 5, mkcfg(1)],
+                      [8, 3, 1, 1, S("ab\n" + "abcdefghijklmnopqrstuvwxyz"), 29, mkcfg(1, 3, (1, 1, 1, 1), pf=("> ", ". ", 1))],
+                      [8, 3, 1, 1, S("ab\n" + "abcdefghijklmnopqrstuvwxyz"), 20, mkcfg(0, 1, (0, 0, 2, 2), pf=(">", "", 0))]]),
 ]
 
 MALFORMED = [[], [1], [[1, 0], [], []], [mkcfg(), [], [[5, 2, 0, 0, 7, 0]]], [mkcfg(), [[97, 1, 1]], []],
              [mkcfg()[:5], [], []], [[2] + mkcfg()[1:], [], []], [mkcfg(tabstop=-1), [], []], [mkcfg(margin=4), [], []],
              [mkcfg()[:6], [], []],
-             [mkcfg(), [], [], 0]]
+             [mkcfg(), [], [], 0],
+             [mkcfg(), [], [[5, 2, 0, 0, [], 0, mkcfg()[:6]]]], [mkcfg(), [], [[5, 2, 0, 0, [], 0, mkcfg(margin=4)]]],
+             [mkcfg(), [], [[5, 2, 0, 0, [], 0, mkcfg(), 0]]]]
 
 
 # --------------------------------------------------------------------------
@@ -292,6 +365,8 @@ def main(tier):
             "witnesses": len(WITNESSES)}
     for d in ("narrow_printable", "tabs", "wide", "control"):
         dist["random_sequence_" + d] = 0
+        dist["switching_random_" + d] = 0
+    dist["switching_pairs_small"] = 0
     corpus = load_corpus(PROP)
 
     def all_cases():
@@ -303,9 +378,14 @@ def main(tier):
             yield c
         for c in gen_exhaustive(chk, dist):
             yield c
+        # after the older families, so that their random streams are what they were before round 6
+        for c in gen_switching(chk, dist):
+            yield c
 
     sub = {d: {"states_in_scope": 0, "oracle_failures": 0, "by_cause": {}} for d in ("narrow_printable", "wide", "control")}
     modes = {"wrap": 0, "nowrap": 0}
+    switched = {"states_with_new_configuration": 0, "of_which_previous_scroll_nonzero": 0, "wrap_mode_changed": 0,
+                "wrap_mode_changed_with_other_modes_scroll_carried": 0}
     timing = {"impl": 0.0, "model": 0.0, "vm": 0.0}
     vm_total = 500 if chk.tier == "thorough" else 120
     vm_done = 0
@@ -321,14 +401,15 @@ def main(tier):
                         if x[k] != y[k]:
                             field = FIELDS[k] if k < len(FIELDS) else "?"
                             break
-                return {"field": field, "mode": "wrap" if c[0][0] else "nowrap",
-                        "domain": domain_of(c[0], c[1], c[2][j])}
+                return {"field": field, "mode": "wrap" if eff_cfg(c, j)[0] else "nowrap",
+                        "domain": domain_of(eff_cfg(c, j), c[1], c[2][j]),
+                        "switched": int(any(len(st) > 6 for st in c[2][:j + 1]))}
         return {"field": "?"}
 
     def describe(c, a, m):
         for j, (x, y) in enumerate(zip(a, m if isinstance(m, list) else [])):
             if x != y:
-                return "state %d: %s | impl=%r model=%r" % (j, describe_state(c[0], c[2][j]), x[:8], y[:8] if isinstance(y, list) else y)
+                return "state %d: %s | impl=%r model=%r" % (j, describe_state(eff_cfg(c, j), c[2][j]), x[:8], y[:8] if isinstance(y, list) else y)
         return "shape"
 
     for cases in chunks_of(all_cases(), CHUNK):
@@ -346,6 +427,15 @@ def main(tier):
             modes["wrap" if cfg[0] else "nowrap"] += 1
             if obs["vs"] or obs["vs2"] or obs["hs"]:
                 nontriv[ci] = True
+            if len(st) > 6:
+                switched["states_with_new_configuration"] += 1
+                if obs["prev"] != (0, 0, 0):
+                    switched["of_which_previous_scroll_nonzero"] += 1
+                pcfg = eff_cfg(cases[ci], si - 1) if si else cfg
+                if pcfg[0] != cfg[0]:
+                    switched["wrap_mode_changed"] += 1
+                    if (obs["prev"][1] and not cfg[0]) or (obs["prev"][2] and cfg[0]):
+                        switched["wrap_mode_changed_with_other_modes_scroll_carried"] += 1
             bad = oracle_state(cfg, st, obs)
             if bad:
                 clause, fam = bad
@@ -358,7 +448,8 @@ def main(tier):
                 chk.violation("oracle", "%s | %s | previous scroll (v, v2, h)=%r | rows drawn: %r" % (
                     clause, describe_state(cfg, st), obs["prev"],
                     ["".join(obs["scr"].data_buffer[y + obs["ypos"]][x + obs["xpos"] + obs["mw"]].char for x in range(obs["bw"])) for y in range(obs["H"])]),
-                    tags, {"case": [cfg, chartab, hist], "state_index": si, "clause": clause,
+                    tags, {"case": [cases[ci][0], chartab, hist], "state_index": si, "clause": clause,
+                           "configuration_in_force": describe_state(cfg, st),
                            "how": "harness/c11_impl.py Window11(cfg).render(state) for each state in order, one Window"})
 
         t0 = time.time()
@@ -395,7 +486,8 @@ def main(tier):
         del impl_results, model_results
 
     chk.coverage["input_distribution"] = dict(dist, corpus=len(corpus), states_by_mode=modes,
-                                              watchdog_retries=retried[0])
+                                              watchdog_retries=retried[0],
+                                              configuration_switches_in_scope=switched)
     chk.coverage["sub_domains"] = sub
     chk.coverage["vm_compute_crosschecked"] = vm_done
     chk.coverage["phase_seconds"] = {k: round(v, 1) for k, v in timing.items()}
@@ -406,7 +498,7 @@ def main(tier):
         chk.violation("tie", "model accepts a malformed case", {"kind": "malformed"}, {"results": mal}, no_input=True)
 
     proof_gate(chk, pr)
-    chk.coverage["rule"] = ("case = (window configuration, 1..40 states (size, position, text, cursor)) rendered through ONE real "
+    chk.coverage["rule"] = ("case = (window configuration, 1..40 states (size, position, text, cursor, optionally a NEW configuration in force from that state on)) rendered through ONE real "
                             "Window(BufferControl) into a Screen by write_to_screen and through the Coq model; compared per state: "
                             "vertical_scroll, vertical_scroll_2, horizontal_scroll, margin width, content cursor, Screen.cursor_positions, "
                             "render_info._rowcol_to_yx for every cell of every line, visible_line_to_row_col, every cell of the window body. "
@@ -417,7 +509,7 @@ def main(tier):
     chk.assumptions += [
         "character widths (get_cwidth of the source character, Char.width and Char.char of the displayed form) are inputs of the model, measured on the implementation per case; the theorems quantify over arbitrary width functions",
         "processors other than BeforeInput and TabsProcessor (highlighting, password, auto-suggestion) and of the margins anything but NumberedMargin's and ScrollbarMargin's widths are outside the model; the default highlight processors are present in the real control and tied only as far as they leave text unchanged",
-        "allow_scroll_beyond_bottom is a configuration flag (both values generated, modelled and covered by the theorems); align=LEFT, no cursorline/colorcolumn, no get_vertical_scroll/get_horizontal_scroll hooks, z_index None (the defaults); wrap mode, scroll offsets, margins, prefixes and processors are fixed per Window (per history) - only text, cursor, window size and position change between the states of a history",
+        "allow_scroll_beyond_bottom is a configuration flag (both values generated, modelled and covered by the theorems); align=LEFT, no cursorline/colorcolumn, no get_vertical_scroll/get_horizontal_scroll hooks, z_index None (the defaults); text, cursor, window size and position change between the states of every history; the switching families also change wrap mode (filter), scroll offsets (callables), margins, get_line_prefix, allow_scroll_beyond_bottom (filter) and the input processors of the SAME Window/BufferControl objects between renders",
         "styles and zero-width escapes are not modelled; cells are compared by their text"]
     return chk.finish()
 
@@ -428,8 +520,10 @@ def replay(data):
     cfg, chartab, states = case[:3]
     out, obss = impl_case(case)
     rc = 0
+    cfg0 = cfg
     for si, (st, res, obs) in enumerate(zip(states, out, obss)):
-        print("state %d: %s" % (si, describe_state(cfg, st)))
+        cfg = eff_cfg([cfg0, chartab, states], si)
+        print("state %d: %s%s" % (si, describe_state(cfg, st), "  (NEW configuration from this state on)" if len(st) > 6 else ""))
         if obs is None:
             print("   status", res)
             continue
